@@ -221,9 +221,13 @@ class _Sim:
         rng = self.rng
         wait_end = max([max(v) for v in self.launched.values()] + [t])
         end = max(t + self.adv(), wait_end)
+        if rng.random() < 0.5:
+            end = max(end, t + 1)       # the call takes time even when there is nothing left to wait for
         self.host("cuda_runtime", "cudaDeviceSynchronize", tid, t, end - t, cbid=165, correlation=corr)
         s0 = rng.choice([t, min(end, t + 1)])
         s1 = max(s0, min(end, max(wait_end, s0)))
+        if s1 == s0 and end > t and rng.random() < 0.7:
+            s0, s1 = t, end             # a sync record of positive length (the analysis ignores zero-length records of stream -1)
         e = {"ph": "X", "cat": "cuda_sync", "name": "Context Sync", "pid": 0, "tid": -1, "ts": s0, "dur": s1 - s0,
              "args": {"cuda_sync_kind": "Context Sync", "wait_on_stream": -1, "wait_on_cuda_event_record_corr_id": -1,
                       "wait_on_cuda_event_id": -1, "stream": 4294967295 if self.cfg.big_stream_marker else -1, "correlation": corr,
@@ -239,7 +243,7 @@ class _Sim:
         rng.shuffle(streams)
         plan = []
         for s in streams:
-            d = self.adv()
+            d = self.adv() + 1          # a launch call takes time (a zero-length one would nest inside the synchronising call that follows)
             start = max(t + rng.choice(cfg.kdelay), self.wait_until.get(s, 0), self.last_end.get(s, 0) + rng.choice((0, 1, 2)))
             if start <= self.last_start.get(s, -1):
                 start = self.last_start[s] + 1
@@ -252,6 +256,17 @@ class _Sim:
             self.dev("kernel", rng.choice(K_COMP), s, start, T - start, corr, queued=0)
             self.last_start[s], self.last_end[s] = start, T
             self.launched.setdefault(s, []).append(T)
+        if rng.random() < 0.5:
+            # one of the streams is waited for on its own first (its kernel is then waited for twice with nothing launched in between)
+            s = rng.choice(streams)
+            corr = self.next_corr()
+            end = max(t + self.adv(), T)
+            self.host("cuda_runtime", "cudaStreamSynchronize", tid, t, end - t, cbid=131, correlation=corr)
+            self.dev("cuda_sync", "Stream Sync", s, t, end - t, corr, cuda_sync_kind="Stream Sync",
+                     wait_on_stream=-1, wait_on_cuda_event_record_corr_id=-1, wait_on_cuda_event_id=-1)
+            d = self.adv() + 1
+            self.host("cpu_op", rng.choice(HOST_OPS), tid, end, d, **{"Sequence number": self.ext})
+            t = end + d
         return self._context_sync(tid, t, self.next_corr())
 
     def event_sync(self, tid: int, t: int) -> int:
@@ -379,6 +394,15 @@ class _Sim:
             yield t
             t = self.tie_sync(tid, t)
             t += self.adv()
+            if rng.random() < 0.5:
+                # the same kernels are waited for a second time with nothing launched in between (sync edges that skip over path nodes)
+                yield t
+                d = self.adv() + 1
+                self.host("cpu_op", rng.choice(HOST_OPS), tid, t, d, **{"Sequence number": self.ext})      # a childless operator
+                t += d + self.adv()
+                yield t
+                t = self._context_sync(tid, t, self.next_corr())
+                t += self.adv()
         for _ in range(cfg.post_ops):
             yield t
             t = yield from self.op(tid, t, 1, HOST_OPS)
